@@ -1520,6 +1520,8 @@ Hendaccess(int32 access_id)
     /* if special elt, call special function */
     if (access_rec->special) {
         ret_value = (*access_rec->special_func->endaccess)(access_rec);
+        /* the special function releases the access record, also when it fails */
+        access_rec = NULL;
         goto done;
     } /* end if */
 
